@@ -18,8 +18,8 @@ Proof.
   intro H. simpl. unfold cfin. destruct (cur_ x); destruct (todo x); try reflexivity; congruence.
 Qed.
 
-Lemma end_call_go_on x es1 o es2 : end_call (go_on x es1 o false) es2 = end_call x (es1 ++ es2).
-Proof. unfold end_call, go_on. simpl. rewrite <- app_assoc, orb_false_r. reflexivity. Qed.
+Lemma end_call_go_on x es1 o es2 : end_call (go_on x es1 o) es2 = end_call x (es1 ++ es2).
+Proof. unfold end_call, go_on. simpl. rewrite <- app_assoc. reflexivity. Qed.
 
 Lemma cstep_open x o : cur_ x = Open o ->
   cstep x = if is_zero (o_n o) then end_call x (pipe_after (o_c o) (o_a o) (Live (o_q o) (o_alive o)))
@@ -27,7 +27,7 @@ Lemma cstep_open x o : cur_ x = Open o ->
                  match z with
                  | Live q' alive' =>
                      go_on x es {| o_prod := o_prod o; o_c := o_c o; o_a := o_a o; o_alive := alive'; o_sts := tl (o_sts o);
-                                   o_n := opred (o_n o); o_q := q' |} false
+                                   o_n := opred (o_n o); o_q := q' |}
                  | Over => end_call x es
                  end.
 Proof. intro H. unfold cstep. rewrite H. reflexivity. Qed.
@@ -61,7 +61,7 @@ Proof.
       * (* RdData: the stream goes on *)
         rewrite (pipe_prod_zero c (alive && negb ended) sts' r) in Hs.
         set (x' := go_on x (es ++ [EBatch b])
-                     {| o_prod := true; o_c := c; o_a := a; o_alive := alive && negb ended; o_sts := sts'; o_n := opred n; o_q := r |} false) in *.
+                     {| o_prod := true; o_c := c; o_a := a; o_alive := alive && negb ended; o_sts := sts'; o_n := opred n; o_q := r |}) in *.
         destruct (IH x' c a (alive && negb ended) (opred n) r eq_refl Ht) as [j Hj].
         exists (S j). intro m. change (S j + m) with (S (j + m)). rewrite (csolo_step x (j + m) Ht), Hs, Hj.
         unfold x'. rewrite end_call_go_on.
@@ -90,7 +90,7 @@ Proof.
     destruct (cli_read c (q ++ fs)) as [[es o] r].
     destruct o.
     + set (x' := go_on x (es ++ [EBatch b])
-                   {| o_prod := false; o_c := c; o_a := a; o_alive := alive && negb ended; o_sts := tl sts; o_n := Some n'; o_q := r |} false) in *.
+                   {| o_prod := false; o_c := c; o_a := a; o_alive := alive && negb ended; o_sts := tl sts; o_n := Some n'; o_q := r |}) in *.
       destruct (IH (tl sts) x' c a (alive && negb ended) r eq_refl Ht) as [j Hj].
       exists (S j). intro m. change (S j + m) with (S (j + m)). rewrite (csolo_step x (j + m) Ht), Hs, Hj.
       unfold x'. rewrite end_call_go_on.
@@ -115,25 +115,25 @@ Proof.
   intros Ha Ht. unfold after_call, between, end_call. simpl. rewrite Ha, Ht. simpl. repeat split; reflexivity.
 Qed.
 
-Lemma stream_call x sp h prod c a n d r cl
+Lemma stream_call x sp h prod c a n r cl
       (body : bool -> list frame -> list event * sess) :
   between x -> todo x = cl :: r ->
   (forall alive q y, cur_ y = Open {| o_prod := prod; o_c := c; o_a := a; o_alive := alive; o_sts := steps sp; o_n := n; o_q := q |} ->
                      todo y <> [] ->
                      exists j, forall m, csolo (j + m) y = csolo m (end_call y (fst (body alive q) ++ pipe_after c a (snd (body alive q))))) ->
-  exists j x', (forall m, csolo (j + m) (open_call x sp h prod c a n d) = csolo m x')
+  exists j x', (forall m, csolo (j + m) (open_call x sp h prod c a n) = csolo m x')
                /\ after_call x x' (cut (pipe_stream sp h c a body)) r.
 Proof.
   intros [Hi Ha] Ht Hloop. unfold open_call, pipe_stream.
   destruct (srv_init sp h) as [q0 alive]. destruct h.
   - destruct (cli_read c q0) as [[es o] r0].
     assert (E : forall es', exists j x', (forall m, csolo (j + m)
-               (end_call {| todo := todo x; cur_ := cur_ x; acc := acc x; tr := tr x; dead := dead x || d |} es') = csolo m x')
+               (end_call x es') = csolo m x')
                /\ after_call x x' (cut es') r).
     { intro es'. exists 0. eexists. split; [intro m; reflexivity|].
       unfold after_call, between, end_call. simpl. rewrite Ha, Ht. simpl. repeat split; reflexivity. }
     destruct o; try apply E.
-    set (y := go_on x (es ++ [EHeader h]) {| o_prod := prod; o_c := c; o_a := a; o_alive := alive; o_sts := steps sp; o_n := n; o_q := skip_eos r0 |} d).
+    set (y := go_on x (es ++ [EHeader h]) {| o_prod := prod; o_c := c; o_a := a; o_alive := alive; o_sts := steps sp; o_n := n; o_q := skip_eos r0 |}).
     assert (Hy : todo y <> []) by (unfold y, go_on; simpl; rewrite Ht; discriminate).
     destruct (Hloop alive (skip_eos r0) y eq_refl Hy) as [j Hj].
     exists j. eexists. split; [exact Hj|].
@@ -142,7 +142,7 @@ Proof.
     replace ((es ++ [EHeader h]) ++ es' ++ pipe_after c a z) with (es ++ EHeader h :: es' ++ pipe_after c a z)
       by (rewrite <- app_assoc; reflexivity).
     repeat split; reflexivity.
-  - set (y := go_on x [] {| o_prod := prod; o_c := c; o_a := a; o_alive := alive; o_sts := steps sp; o_n := n; o_q := q0 |} d).
+  - set (y := go_on x [] {| o_prod := prod; o_c := c; o_a := a; o_alive := alive; o_sts := steps sp; o_n := n; o_q := q0 |}).
     assert (Hy : todo y <> []) by (unfold y, go_on; simpl; rewrite Ht; discriminate).
     destruct (Hloop alive q0 y eq_refl Hy) as [j Hj].
     exists j. eexists. split; [exact Hj|].
@@ -157,8 +157,8 @@ Proof.
   intros Hb Ht. pose proof Hb as [Hi Ha].
   assert (Hne : todo x <> []) by (rewrite Ht; discriminate).
   assert (Hs : cstep x = match p, sc with
-                         | PStream sp, SIter h k a c => open_call x sp h true c a (match a with AStop => None | _ => Some k end) (crashes (p, sc))
-                         | PStream sp, SExch h n a c => open_call x sp h false c a (Some n) (crashes (p, sc))
+                         | PStream sp, SIter h k a c => open_call x sp h true c a (match a with AStop => None | _ => Some k end)
+                         | PStream sp, SExch h n a c => open_call x sp h false c a (Some n)
                          | _, _ => end_call x (run_pipe p sc)
                          end).
   { unfold cstep. rewrite Hi, Ht. reflexivity. }
@@ -170,13 +170,13 @@ Proof.
       eapply end_call_after; eauto. }
   destruct p as [u|sp]; destruct sc as [c|h k a c|h n a c]; try (apply Plain; exact Hs).
   - (* producer *)
-    destruct (stream_call x sp h true c a (match a with AStop => None | _ => Some k end) (crashes (PStream sp, SIter h k a c)) r (PStream sp, SIter h k a c)
+    destruct (stream_call x sp h true c a (match a with AStop => None | _ => Some k end) r (PStream sp, SIter h k a c)
                 (fun alive q => pipe_prod c alive (steps sp) (match a with AStop => None | _ => Some k end) q) Hb Ht) as (j & x' & Hj & Ha').
     { intros alive q y Hy Hty. apply prod_loop; assumption. }
     exists (S j), x'. split; [|exact Ha'].
     intro m. change (S j + m) with (S (j + m)). rewrite (csolo_step x (j + m) Hne), Hs. apply Hj.
   - (* exchange *)
-    destruct (stream_call x sp h false c a (Some n) (crashes (PStream sp, SExch h n a c)) r (PStream sp, SExch h n a c)
+    destruct (stream_call x sp h false c a (Some n) r (PStream sp, SExch h n a c)
                 (fun alive q => pipe_exch c alive (steps sp) n q) Hb Ht) as (j & x' & Hj & Ha').
     { intros alive q y Hy Hty. apply exch_loop; assumption. }
     exists (S j), x'. split; [|exact Ha'].
